@@ -14,3 +14,7 @@ func Stop(c chan<- simos.Signal) { simos.StopChan(c) }
 // signal-handler goroutine to acknowledge, so that the simulator always knows
 // whether a handler is listening.
 func CloseQuit(quit chan<- struct{}) { simos.CloseQuit(quit) }
+
+// WaitDone stands in for a bare `<-done` (waiting for the signal-handler
+// goroutine) in the scratch copy of cmd/gxz.
+func WaitDone(done <-chan struct{}) { simos.WaitDone(done) }
